@@ -42,9 +42,28 @@ def main(argv):
         class _Sink(logging.Handler):
             n = 0
 
+            busy = False
+
             def emit(self, record):
                 _Sink.n += 1
                 self.format(record)
+                # a handler that itself uses the library (ships the record
+                # over AMQP): the codec is re-entered on the same thread
+                # while the call that logged is half done
+                if _Sink.busy or not record.name.startswith('pamqp'):
+                    return
+                _Sink.busy = True
+                try:
+                    from pamqp import commands, encode, frame
+                    encode.field_table({'logger': record.name, 'n': 70000,
+                                        'args': [1, {'level': 'x'}, 2.5]})
+                    frame.marshal(commands.Basic.Publish(
+                        exchange='logs', routing_key=record.levelname), 7)
+                    frame.unmarshal(b'\x08\x00\x00\x00\x00\x00\x00\xce')
+                except Exception:
+                    pass
+                finally:
+                    _Sink.busy = False
         root = logging.getLogger()
         root.addHandler(_Sink())
         root.setLevel(logging.DEBUG)
